@@ -108,7 +108,7 @@ def cases(quick, seed):
             modes = 'S1 S2 S3' if nt == 1 else 'S2 S3'
             if H > 60 and nt not in (1, 16):
                 continue
-            add('hod', 'hod', modes, H=H, P=P, Nthread=nt, origin=bool(H % 2), rsd=True, ranks=bool(P % 2))
+            add('hod', 'hod', modes, H=H, P=P, Nthread=nt, origin=bool(H % 2), rsd=True, ranks=bool(P % 2), zero_weights=bool(nt % 2))
     for N1, N2 in ((0, 0), (0, 3), (3, 0), (1, 1), (1, 50), (50, 1), (5, 7)):
         for nt in (1, 2, 3, 16):
             add('hod', 'concat', 'S1 S2 S3' if nt == 1 else 'S2 S3', N1=N1, N2=N2, Nthread=nt)
@@ -157,13 +157,21 @@ def check(run):
             if lst:
                 jobs.append((mode, g, [dict(kernel='selftest')] + lst))
 
+    # adversarial heap fill: kernels that consult never-written scratch arrays behave according to what the heap holds;
+    # MALLOC_PERTURB_=254/253/252 makes fresh blocks read as 1/2/3 (the keep codes of the HOD passes) instead of 0x5A
+    for fill, perturb in ((1, '254'), (2, '253'), (3, '252')):
+        lst = [dict(c, _mode='S1') for (gg, modes, c) in C if gg == 'hod' and 'S1' in modes and c['kernel'] in ('hod', 'nfw')]
+        jobs.append(('S1', f'hod-heapfill{fill}', [dict(kernel='selftest')] + lst, dict(ENV['S1'], MALLOC_PERTURB_=perturb)))
+
     def work(job):
-        mode, g, lst = job
-        return job, sandbox.run_batch('vlib.c11_cases:run_case', lst, env=ENV[mode], timeout=3000, label=f'{mode}-{g}')
+        mode, g, lst = job[:3]
+        env = job[3] if len(job) > 3 else ENV[mode]
+        return job, sandbox.run_batch('vlib.c11_cases:run_case', lst, env=env, timeout=3000, label=f'{mode}-{g}')
 
     with cf.ThreadPoolExecutor(8) as ex:
         results = list(ex.map(work, jobs))
-    for (mode, g, lst), res in results:
+    for job, res in results:
+        mode, g, lst = job[:3]
         st = res[0]
         ok_self = st['status'] == 'ok' and (mode == 'S3' or all(v == 'index_error' for v in st['result'].values()))
         run.extra.setdefault('sanitizer_self_test', {})[f'{mode}-{g}'] = st.get('result', st.get('status'))
